@@ -351,6 +351,15 @@ def index2(q, row, col):
                         return q_slice(vec, row[1], row[2])
             if row[0] == 'int' and col[0] == 'int' and row[1] is not None and col[1] is not None:
                 return q[2].get((row[1], col[1]))
+            if row[0] == 'int' and col[0] == 'slice' and row[1] is not None and col[1] is not None:
+                # one row across the stored columns: the entries that are known
+                d = {}
+                cells = [(c, b_ + row[1].scale(a_)) for c, a_, b_ in q[1]] + [(j, v) for (i, j), v in q[2].items() if i == row[1]]
+                for c, val in cells:
+                    t = (c - col[1]).scale(F(1, col[2]))
+                    if t.is_const() and t.c.denominator == 1 and t.c >= 0:
+                        d[Aff(t.c)] = val
+                return ('partial', d) if d else None
             return None
         q = g
     if not is_lin2(q):
@@ -504,3 +513,56 @@ def lstsq_q(itp, aq, bq, node):
         itp.conflict('add', 'q', 'least-squares rows: target charge %s and regressor charge %s differ in their row dependence' % (show(bq), show(aq)), node)
         return None
     return lin(-aq[2], bb - aq[3])
+
+
+# ----------------------------------------------------------------------------- short concrete vectors
+def to_partial(q, n):
+    """entry-wise charges of a vector of concrete length n (None when not known entry by entry)"""
+    if n is None or not aff(n).is_const() or aff(n).c > 32:
+        return None
+    n = int(aff(n).c)
+    if isinstance(q, Aff):
+        return {Aff(i): q for i in range(n)}
+    if is_lin(q):
+        return {Aff(i): q[2] + Aff(q[1] * i) for i in range(n)}
+    if is_partial(q):
+        return dict(q[1])
+    if q == 'any':
+        return {}
+    return None
+
+
+def from_partial(d, n):
+    """most compact form of entry-wise charges"""
+    if n is not None and aff(n).is_const() and len(d) == int(aff(n).c) and d:
+        vals = [d.get(Aff(i)) for i in range(int(aff(n).c))]
+        if all(v is not None for v in vals):
+            if all(q_eq(v, vals[0]) for v in vals):
+                return vals[0]
+            if len(vals) >= 2:
+                st = vals[1] - vals[0]
+                if st.is_const() and all(q_eq(vals[i], vals[0] + Aff(st.c * i)) for i in range(len(vals))):
+                    return lin(st.c, vals[0])
+    return ('partial', d) if d else 'any'
+
+
+def reduce_sum(itp, q, n, node, what='sum'):
+    """charge of the sum of the entries: they must all carry the same charge"""
+    if q is None or q == 'any' or isinstance(q, Aff):
+        return q
+    if is_lin(q):
+        if q[1] != 0:
+            itp.conflict('add', 'q', '%s over elements whose modulation charge depends on the index (%s): a missing/extra '
+                         'conjugate or a wrong index in the summand' % (what, show(q)), node)
+            return None
+        return q[2]
+    if is_partial(q):
+        vals = list(q[1].values())
+        if vals and any(not q_eq(v, vals[0]) for v in vals):
+            itp.conflict('add', 'q', '%s over elements with different modulation charges (%s): a missing/extra conjugate or a wrong '
+                         'index in the summand' % (what, show(q)), node)
+            return None
+        if n is not None and aff(n).is_const() and len(vals) == int(aff(n).c) and vals:
+            return vals[0]
+        return None
+    return None
